@@ -457,9 +457,9 @@ Proof.
   - (* S2F37 with an empty list: all *)
     destruct which as [|w ws]; [|contradiction Hc]. cbn [m_enable fst snd]. eexists; split; [left; reflexivity|split; [reflexivity|left; reflexivity]].
   - (* S6F15 *)
-    cbn [fst snd]. destruct (event_ok env c ce Hi) as (rpt & Ev & Bu). rewrite Ev. unfold m_request, enabled.
+    cbn [fst snd]. destruct (event_ok env c ce Hi) as (rpt & Ev & Bu). rewrite Ev. unfold m_request.
     destruct (rlookup ce (links c)) as [[rs en]|] eqn:L.
-    + destruct en; [rewrite (Bu _ _ eq_refl)|]; eexists; (split; [left; reflexivity|split; [reflexivity|cbn; auto]]).
+    + rewrite (Bu _ _ eq_refl). eexists; (split; [left; reflexivity|split; [reflexivity|cbn; auto]]).
     + unfold event_report in Ev. rewrite L in Ev. injection Ev as <-. eexists; (split; [left; reflexivity|split; [reflexivity|cbn; auto]]).
   - (* trigger *)
     cbn [fst snd]. destruct (event_ok env c ce Hi) as (rpt & Ev & Bu). rewrite Ev. unfold m_trigger, enabled.
